@@ -214,6 +214,10 @@ pub const SIG_VM_POOL: &str = "vm-version-change:pool-verdict:cached-script-resu
 pub const SIG_VM_POOL_CYCLES: &str = "vm-version-change:pool-report-cycles:cached-script-result-reused";
 pub const SIG_CELL_DATA: &str = "query:get_cell_data(_hash):non-live-cell-answered-from-cache";
 pub const SIG_CELL_DATA_HASH: &str = SIG_CELL_DATA;
+/// the cell never was live on the node: its data entered the cache through a read inside a store
+/// transaction that was rolled back (the block creating it failed verification)
+pub const SIG_CELL_DATA_ROLLED_BACK: &str =
+    "query:get_cell_data(_hash):non-live-cell-answered-from-cache:cached-inside-a-rolled-back-store-transaction";
 
 #[derive(Clone, Copy, Debug, Default)]
 pub struct Known {
@@ -221,6 +225,7 @@ pub struct Known {
     pub txh_empty: bool,
     pub cell_data: bool,
     pub cell_data_hash: bool,
+    pub cell_data_rolled_back: bool,
     pub vm_change: bool,
 }
 
@@ -235,6 +240,7 @@ impl Known {
             txh_empty: ctx.is_known(SIG_TXH_EMPTY),
             cell_data: ctx.is_known(SIG_CELL_DATA),
             cell_data_hash: ctx.is_known(SIG_CELL_DATA_HASH),
+            cell_data_rolled_back: ctx.is_known(SIG_CELL_DATA_ROLLED_BACK),
             vm_change: ctx.is_known(SIG_VM_BLOCK),
         }
     }
@@ -597,6 +603,9 @@ struct Track {
     cached: BTreeMap<[u8; 32], [u8; 32]>,
     hits_ctx_changed: u64,
     query_across: u64,
+    /// cells that were live inside the store transaction of a refused (rolled back) import:
+    /// restored by a detached block, or created by a block of the refused branch
+    rolled_back_cells: BTreeSet<CellKey>,
 }
 
 struct Run<'a> {
@@ -779,6 +788,20 @@ impl<'a> Run<'a> {
             }
             if a != r || a != m {
                 let stale_cache = !live && r == m && a != "None";
+                let rolled_back = self.tr.rolled_back_cells.contains(&cell_key(op));
+                if stale_cache && (q == 2 || q == 3) && rolled_back {
+                    if self.k.cell_data_rolled_back {
+                        self.st.label("known:get_cell_data-cached-inside-a-rolled-back-store-transaction");
+                        continue;
+                    }
+                    vfail!(
+                        SIG_CELL_DATA_ROLLED_BACK,
+                        "op {} ({ctx_}): {}({}) via {via}: tested node {a}, reference node {r}, model {m}; the cell was live only inside the store transaction of a refused reorganisation (restored by a detached block or created by a block of the refused branch)",
+                        self.opi,
+                        CQ_NAMES[q],
+                        op
+                    );
+                }
                 if stale_cache && q == 2 && self.k.cell_data {
                     self.st.label("known:get_cell_data-non-live-answered-from-cache");
                     continue;
@@ -1000,6 +1023,27 @@ impl<'a> Run<'a> {
             && self.w.tree.get(&h).td > self.w.tree.get(&tip_before).td
             && self.w.present(&self.w.tree.get(&h).parent);
         let expect_ok = self.w.deliver(&h);
+        if will_verify && !expect_ok {
+            let tree = &self.w.tree;
+            for x in tree.path(&tip_before) {
+                if !tree.is_ancestor(&x.hash, &h) {
+                    for tx in x.block.transactions().iter().skip(1) {
+                        for i in tx.inputs() {
+                            self.tr.rolled_back_cells.insert(cell_key(&i.previous_output()));
+                        }
+                    }
+                }
+            }
+            for x in tree.path(&h) {
+                if !tree.is_ancestor(&x.hash, &tip_before) {
+                    for tx in x.block.transactions().iter() {
+                        for (j, _) in tx.outputs().into_iter().enumerate() {
+                            self.tr.rolled_back_cells.insert(cell_key(&OutPoint::new(tx.hash(), j as u32)));
+                        }
+                    }
+                }
+            }
+        }
         let (a, r) = self.p.deliver(&blk)?;
         if trace() {
             eprintln!(
@@ -1617,6 +1661,216 @@ fn prop(case: &Case, st: &mut Stats, k: Known) -> Verdict {
     Ok(())
 }
 
+// ------------------------------------------------------------------------------------------------
+// second family: assume-valid window
+//
+// A node configured with `assume_valid_targets` verifies every block with `Switch::DISABLE_SCRIPT`
+// until the last target has been verified (ConsumeUnverifiedBlockProcessor::verify_block), then
+// fully.  Both nodes get the same configuration (the targets are set through the public
+// `Shared::assume_valid_targets()` handle that SharedBuilder fills from the sync config; reaching the
+// target is emulated by clearing it, which is what verify_block does at that moment); only the
+// caches differ.  Blocks verified after the window must get the same verdict and the same recorded
+// cycles on both nodes, whatever was seen inside the window.
+
+#[derive(Clone, Debug, Serialize, Deserialize)]
+pub struct AvCase {
+    pub variant: u8,
+    pub t_cfg: u8,
+    pub plan: crate::plan::TreePlan,
+    /// number of leading deliveries (creation order) made while the targets are pending
+    pub window: u16,
+    /// bit i: the transactions of delivery i (mod 16) are first submitted to both pools (full
+    /// verification on the pool path: the warm node caches the result)
+    #[serde(default)]
+    pub submit_mask: u16,
+}
+
+fn av_case_strategy() -> impl Strategy<Value = AvCase> {
+    let p = crate::plan::PlanParams {
+        min_blocks: 8,
+        max_blocks: 30,
+        fork_pct: 40,
+        tx_rate: 60,
+        invalid_pct: 0,
+        uncle_pct: 5,
+        dao_pct: 0,
+    };
+    (
+        0u8..4,
+        0u8..4,
+        crate::plan::tree_plan_strategy(p),
+        any::<u16>(),
+        prop_oneof![2 => Just(0u16), 1 => any::<u16>()],
+    )
+        .prop_map(|(variant, t_cfg, plan, window, submit_mask)| AvCase { variant, t_cfg, plan, window, submit_mask })
+}
+
+fn av_prop(case: &AvCase, st: &mut Stats) -> Verdict {
+    install_panic_recorder();
+    clear_panics();
+    let cfg = crate::checks::c01::variant_cfg(case.variant % 4);
+    let env = build_env(&cfg);
+    let built = crate::plan::Interp::new(&env).run(&case.plan);
+    let n = built.blocks.len();
+    if n < 3 {
+        return Ok(());
+    }
+    let tree = &built.tree;
+    let pair = Pair::start(&env, &Case { variant: 0, t_cfg: case.t_cfg, sys_cell: false, ops: vec![] })?;
+    // deliveries (creation order) at which the model's heaviest chain switches to a branch that
+    // commits again a transaction the old main chain had committed: the window preferably closes
+    // right there, so that the branch is verified in full right after the window
+    let mut interesting: Vec<usize> = vec![];
+    {
+        let mut best = tree.genesis.clone();
+        for (i, h) in built.blocks.iter().enumerate() {
+            let b = tree.get(h);
+            if b.td > tree.get(&best).td {
+                if b.parent != best && i > 0 {
+                    let old: BTreeSet<[u8; 32]> = tree
+                        .path(&best)
+                        .iter()
+                        .flat_map(|x| x.block.transactions().into_iter().skip(1).map(|t| h32(&t.witness_hash())))
+                        .collect();
+                    let again = tree.path(h).iter().any(|x| {
+                        !tree.is_ancestor(&x.hash, &best)
+                            && x.block.transactions().iter().skip(1).any(|t| old.contains(&h32(&t.witness_hash())))
+                    });
+                    if again {
+                        interesting.push(i);
+                    }
+                }
+                best = h.clone();
+            }
+        }
+    }
+    let k = if !interesting.is_empty() && case.window % 4 != 0 {
+        interesting[pick_idx((case.window / 4) as u32 * 4, interesting.len())]
+    } else {
+        1 + pick_idx(case.window as u32, n - 1)
+    };
+    let pending = ckb_types::H256([0xa5; 32]);
+    for node in [&pair.t, &pair.r] {
+        *node.shared.assume_valid_targets() = Some(vec![pending.clone()]);
+    }
+    // wtx hash -> committed inside the window
+    let mut in_window: BTreeSet<[u8; 32]> = BTreeSet::new();
+    let mut recommitted_after = 0u64;
+    let mut verified_in_window: BTreeSet<[u8; 32]> = BTreeSet::new();
+    let mut counted: BTreeSet<[u8; 32]> = BTreeSet::new();
+    let mut reverified_after = 0u64;
+    let mut pool_then_window = 0u64;
+    for (i, h) in built.blocks.iter().enumerate() {
+        if i == k {
+            for node in [&pair.t, &pair.r] {
+                node.shared.assume_valid_targets().take();
+            }
+        }
+        let b = tree.get(h);
+        for tx in b.block.transactions().iter().skip(1) {
+            let w = h32(&tx.witness_hash());
+            if i < k {
+                in_window.insert(w);
+            } else if in_window.contains(&w) {
+                recommitted_after += 1;
+            }
+        }
+        if case.submit_mask >> (i % 16) & 1 == 1 && std::env::var_os("C14_AV_NOSUBMIT").is_none() {
+            for tx in b.block.transactions().iter().skip(1) {
+                let ra = pair.t.shared.tx_pool_controller().submit_local_tx(tx.clone());
+                let rb = pair.r.shared.tx_pool_controller().submit_local_tx(tx.clone());
+                if let (Ok(Ok(_)), Ok(Ok(_))) = (&ra, &rb) {
+                    st.label("assume-valid:tx-verified-by-the-pool-before-its-block");
+                    if i < k {
+                        pool_then_window += 1;
+                    }
+                }
+            }
+        }
+        let (a, c) = pair.deliver(&b.block)?;
+        if std::env::var_os("C14_AV_TRACE").is_some() {
+            use std::io::Write;
+            let mut f = std::fs::OpenOptions::new().create(true).append(true).open("/dev/shm/av.trace").unwrap();
+            let _ = writeln!(f, "av-deliver: k={k} i={i} #{} invalid={:?} T {:?} R {:?}", b.number, b.invalid, a, c);
+        }
+        if i < k {
+            // everything on the (then) main chain has been through BlockTxsVerifier without scripts
+            let snap = pair.t.shared.snapshot();
+            for x in tree.path(&snap.tip_hash()) {
+                for tx in x.block.transactions().iter().skip(1) {
+                    verified_in_window.insert(h32(&tx.witness_hash()));
+                }
+            }
+        } else if a.is_ok() {
+            let snap = pair.t.shared.snapshot();
+            for x in tree.path(&snap.tip_hash()) {
+                let xi = built.blocks.iter().position(|y| y == &x.hash).unwrap_or(0);
+                if xi >= k && xi <= i && !counted.contains(&h32(&x.hash)) {
+                    counted.insert(h32(&x.hash));
+                    for tx in x.block.transactions().iter().skip(1) {
+                        if verified_in_window.contains(&h32(&tx.witness_hash())) {
+                            reverified_after += 1;
+                        }
+                    }
+                }
+            }
+        }
+        if a.is_ok() != c.is_ok() {
+            vfail!(
+                "assume-valid:block-verdict-differs",
+                "delivery {i} (#{}, {} the assume-valid window of {k} deliveries): node with caches {:?}, node without caches {:?}",
+                b.number,
+                if i < k { "inside" } else { "after" },
+                a,
+                c
+            );
+        }
+    }
+    let (ts, rs) = (pair.t.shared.snapshot(), pair.r.shared.snapshot());
+    if ts.tip_hash() != rs.tip_hash() {
+        vfail!("assume-valid:tip-differs", "tips differ: #{} vs #{}", ts.tip_number(), rs.tip_number());
+    }
+    for h in &built.blocks {
+        let (ea, eb) = (ts.get_block_ext(h), rs.get_block_ext(h));
+        let strip = |e: &Option<ckb_types::core::BlockExt>| e.as_ref().map(|e| (e.verified, e.txs_fees.clone(), e.cycles.clone(), e.txs_sizes.clone()));
+        if std::env::var_os("C14_AV_TRACE").is_some() {
+            use std::io::Write;
+            let mut f = std::fs::OpenOptions::new().create(true).append(true).open("/dev/shm/av.trace").unwrap();
+            let _ = writeln!(f, "av: k={k} block #{} idx {:?} txs {} T {:?} R {:?}", tree.get(h).number, built.blocks.iter().position(|x| x == h), tree.get(h).block.transactions().len() - 1, strip(&ea).map(|x| (x.0, x.2)), strip(&eb).map(|x| (x.0, x.2)));
+        }
+        if strip(&ea) != strip(&eb) {
+            let b = tree.get(h);
+            let zero = |e: &Option<ckb_types::core::BlockExt>| e.as_ref().and_then(|e| e.cycles.clone()).map(|c| c.iter().any(|x| *x == 0)).unwrap_or(false);
+            vfail!(
+                match (zero(&ea), zero(&eb)) {
+                    (true, false) => "assume-valid:block-ext-cycles:warm-node-records-zero-cycles:script-skipped-result-reused",
+                    (false, true) => "assume-valid:block-ext-cycles:warm-node-records-cached-cycles-for-script-skipped-block",
+                    _ => "assume-valid:block-ext-differs",
+                },
+                "block #{} ({} transactions): ext with caches {:?}, without caches {:?}",
+                b.number,
+                b.block.transactions().len() - 1,
+                strip(&ea),
+                strip(&eb)
+            );
+        }
+    }
+    node_panic_violation()?;
+    st.label_n("assume-valid:tx-committed-in-window-and-again-after-it", recommitted_after);
+    st.label_n("assume-valid:tx-verified-in-window-and-verified-again-after-it", reverified_after);
+    st.label_n("assume-valid:tx-verified-by-the-pool-then-committed-inside-the-window", pool_then_window);
+    if reverified_after > 0 || pool_then_window > 0 {
+        st.nontrivial(&serde_json::to_string(case).unwrap_or_default());
+        if st.want_sample() {
+            st.sample(|| json!({"family": "assume-valid-window", "variant": case.variant % 4, "t_cfg": case.t_cfg % 4, "blocks": n, "window": k, "recommitted_after_window": recommitted_after}));
+        }
+    }
+    let Pair { t, r } = pair;
+    t.stop();
+    r.stop();
+    Ok(())
+}
+
 fn run(ctx: &Ctx) {
     ctx.shrink_iters.set(120);
     let k = Known::from_ctx(ctx);
@@ -1626,9 +1880,19 @@ fn run(ctx: &Ctx) {
     let cases = ctx.cases(640, 9600);
     let max_ops = ctx.tier.pick(48, 90);
     ctx.run_prop("paired-history", cases, case_strategy(max_ops, pinned), move |c, st| prop(c, st, k));
+    if pinned.is_none() {
+        // (the SYSTEM_CELL cache of the pinned workers belongs to another genesis)
+        let cases = ctx.cases(320, 4800);
+        ctx.run_prop("assume-valid-window", cases, av_case_strategy(), av_prop);
+    }
 }
 
-fn replay(ctx: &Ctx, _sub: &str, v: &Value) -> Verdict {
+fn replay(ctx: &Ctx, sub: &str, v: &Value) -> Verdict {
+    if sub == "assume-valid-window" {
+        let c: AvCase = from_case(v)?;
+        let mut st = ctx.stats.borrow_mut();
+        return av_prop(&c, &mut st);
+    }
     let mut c: Case = from_case(v)?;
     let k = Known::from_ctx(ctx);
     let mut st = ctx.stats.borrow_mut();
